@@ -306,6 +306,13 @@ pub fn run_c09(ctx: &Ctx) -> i32 {
         });
         mint_amounts.push(None);
     }
+    // two transfers initiated from the contract's sudo entry point (App::wasm_sudo): a refused second
+    // one takes the first back, like everywhere else
+    for (a1, a2) in [(1u128, 1u128), (1, 3), (2, 0), (1, 2)] {
+        let sub = |id: u64, to: &String, a: u128| Sub { id, payload: vec![], reply_on: Mode::Never, msg: Msg::BankSend { to: Target::Addr(to.clone()), coins: vec![c("x", a)] }, reply: None };
+        alphabet.push(Program { entry: Entry::WasmSudo { contract: ad.a.clone() }, root: 0, nodes: vec![Node { subs: vec![sub(100, &accounts[1], a1), sub(101, &accounts[2], a2)], ..Default::default() }] });
+        mint_amounts.push(None);
+    }
     // several bank messages in one transaction (execute_multi): all of them or none - a refused
     // later message takes the earlier transfers and burns back
     for from in &accounts[..2] {
